@@ -77,6 +77,14 @@ def gen_exons(rng, n, strand, k, lo=0, hi=None):
             parts.append((cuts[i], cuts[i + 1], strand))
     if not parts:
         parts = [(lo, lo + 1, strand)]
+    if len(parts) > 1 and rng.random() < 0.3:
+        # TOUCHING exons (end of one = start of the next), often several in a row: every gap is closed with
+        # probability 0.6 (the merge loops of offset_location / extend_location / build_location_from_others
+        # compare exactly these coordinates; finding offset_merge_drops_part needs two touching pairs in a row)
+        closed = [parts[0]]
+        for s, e, st in parts[1:]:
+            closed.append((closed[-1][1], e, st) if rng.random() < 0.6 else (s, e, st))
+        parts = closed
     return parts
 
 
@@ -107,6 +115,20 @@ def gen_bridging(rng, n, strand=None):
     if strand == -1:
         return list(reversed(lower)) + list(reversed(upper))
     return upper + lower
+
+
+def gen_rev_bridging_multi(rng, n):
+    """ a reverse-strand origin-spanning location with three or more exons in transcription order (neither the
+        listed nor the reversed exon order is a non-bridging one: location_bridges_origin(allow_reversing=True)
+        reverses, tests again and has to swap back), sometimes written in the alternate (reversed) order """
+    split = rng.randrange(2, n - 1) if n > 4 else 2
+    k_low, k_up = rng.choice([(1, 2), (2, 1), (2, 2), (1, 3), (3, 1)])
+    lower = gen_exons(rng, n, -1, k_low, 0, split)
+    upper = gen_exons(rng, n, -1, k_up, split, n)
+    parts = list(reversed(lower)) + list(reversed(upper))
+    if rng.random() < 0.25:
+        parts.reverse()
+    return parts
 
 
 def gen_loc(rng, n, allow_bridging=True):
@@ -207,7 +229,46 @@ def record_of(m, circ):
     return RECORDS[key]
 
 
-def call_objs(fn, args, build=mk_loc):
+INVARIANT_FAILS = []   # (fn, args, what, object description): returned objects that are not secmet locations
+
+
+def describe_object(loc):
+    return {"type": f"{type(loc).__module__}.{type(loc).__name__}",
+            "part_types": sorted({f"{type(p).__module__}.{type(p).__name__}" for p in getattr(loc, "parts", [])}),
+            "repr": repr(loc)}
+
+
+def class_invariant(loc):
+    """ the dynamic type / class invariants of a returned location (the other helpers dispatch on them:
+        isinstance(x, CompoundLocation) with the secmet class decides exon-wise containment/overlap, the type
+        assertion of location_bridges_origin, the mixin methods clone/crosses_origin/clone_with_offset).
+        Returns None, or what is wrong. """
+    from antismash.common.secmet import locations as L
+    if not isinstance(loc, (L.FeatureLocation, L.CompoundLocation)):
+        return f"returned object is a {type(loc).__module__}.{type(loc).__name__}, not a secmet FeatureLocation/CompoundLocation"
+    parts = list(loc.parts)
+    if isinstance(loc, L.CompoundLocation):
+        if len(parts) < 2:
+            return "CompoundLocation with fewer than two parts"
+        if not isinstance(loc.operator, str):
+            return "CompoundLocation without an operator"
+        for part in parts:
+            if not isinstance(part, L.FeatureLocation) or isinstance(part, L.CompoundLocation):
+                return f"a part of the CompoundLocation is a {type(part).__module__}.{type(part).__name__}, not a secmet FeatureLocation"
+    elif len(parts) != 1 or parts[0] is not loc:
+        return "FeatureLocation whose parts are not [itself]"
+    for part in parts:
+        if not (isinstance(part.start, int) and isinstance(part.end, int)) or int(part.start) > int(part.end):
+            return f"part with non-integer or inverted positions: {part!r}"
+        if part.strand not in (1, -1, 0, None):
+            return f"part with strand {part.strand!r}"
+    for method in ("clone", "crosses_origin", "clone_with_offset"):
+        if not callable(getattr(loc, method, None)):
+            return f"returned location has no method {method}()"
+    return None
+
+
+def call_objs(fn, args, build=mk_loc, live=None):
     """ runs the implementation on freshly built arguments.  Returns (encoded output, location objects of the
         call: the arguments in order, then the returned location) - the same objects, in the same order, as
         call_objects in C04/Model.v """
@@ -216,11 +277,16 @@ def call_objs(fn, args, build=mk_loc):
     res = []
 
     def arg(parts):
-        objs.append(build(parts))
+        # live: {k: object} - the k-th argument location of the call is this live object (the composition family
+        # passes the object RETURNED by another function, not a rebuilt copy)
+        objs.append(live[len(objs)] if live and len(objs) in live else build(parts))
         return objs[-1]
 
     def keep(loc):
         res.append(loc)
+        why = class_invariant(loc)
+        if why:
+            INVARIANT_FAILS.append((fn, args, why, describe_object(loc)))
         return enc_pyloc(loc)
 
     if fn == 1:
@@ -240,6 +306,10 @@ def call_objs(fn, args, build=mk_loc):
 
         def go():
             lower, upper = L.split_origin_bridging_location(a)
+            for part in list(lower) + list(upper):
+                why = class_invariant(part)
+                if why:
+                    INVARIANT_FAILS.append((fn, args, why, describe_object(part)))
             enc = lambda ps: enc_loc([(int(p.start), int(p.end), strand_from_py(p.strand)) for p in ps])
             return enc(lower) + enc(upper)
         out = result(go)
@@ -286,7 +356,7 @@ def call_objs(fn, args, build=mk_loc):
             return enc_py_tloc(loc)
         out = result(go)
     elif fn == 15:
-        objs.append(mk_tloc(args[0]))
+        objs.append(live[0] if live and 0 in live else mk_tloc(args[0]))
         out = enc_str(str(objs[0]))
     elif fn == 16:
         locs = [arg(l) for l in args[0]]
@@ -457,8 +527,11 @@ def gen_case(rng, fn=None):
         return fn, (gen_loc(rng, n, circ), gen_loc(rng, n, circ), n, circ), n
     if fn == 19:
         a = gen_loc(rng, n)
-        if len(a) > 1 and rng.random() < 0.5:   # the alternate annotation order of a reverse-strand location
+        r = rng.random()
+        if len(a) > 1 and r < 0.4:   # the alternate annotation order of a reverse-strand location
             a = sorted([(s, e, -1) for s, e, _ in a])
+        elif r < 0.7 and n >= 6:
+            a = gen_rev_bridging_multi(rng, n)
         return fn, (a,), n
     a = gen_loc(rng, n)
     return 11, (a, rng.choice([1, 2, 3, 1, 2, 3, 0, 4]), rng.random() < 0.5), n
@@ -531,12 +604,16 @@ RULE = ("random structured locations (simple / multi-exon / origin-spanning, str
         "connect cases in all argument orders, the history family (call, in-place mutation of the returned and of the argument objects by the mutators of the code "
         "base, the same call again on freshly built equal arguments, 40% of them built from their text; evaluated by Gallina "
         "function 300 and compared at every position; arguments compared before/after every call), the regression corpus of "
-        "the repaired findings first, and a text round-trip oracle; non-trivial = a compound location is involved or the "
+        "the repaired findings first, the composition family (the live object returned by every location-producing function "
+        "passed to the location-consuming functions: same result as for an equal freshly built location, specification of the "
+        "consumer, model of the composition), class invariants of every returned location, specification 119 on "
+        "location_bridges_origin(allow_reversing=True) (answer and argument afterwards), touching exons in 30% of the multi-exon "
+        "locations, and a text round-trip oracle; non-trivial = a compound location is involved or the "
         "function is connect/offset/extend; distinct by flat encoding")
 
 
 SPEC_OFFSET = 100
-SPEC_FNS = (1, 2, 3, 6, 7, 8, 17, 18)
+SPEC_FNS = (1, 2, 3, 6, 7, 8, 17, 18, 19)
 
 
 def spec_case(flat, out):
@@ -566,7 +643,14 @@ CLAUSES = {
         4: "result does not cover every input base", 5: "result longer than the linear hull although no input wraps",
         6: "an arc shorter than half the record covers all inputs but the result is longer than it"},
     7: {1: "offset raised on a well-formed input", 2: "result parts empty or outside the record", 3: "result parts overlap",
-        4: "length changed", 5: "strand changed", 6: "bases of the result are not the rotated bases of the input"},
+        4: "length changed", 5: "strand changed", 6: "bases of the result are not the rotated bases of the input",
+        7: "the bases of the result, read in transcription order (exons as listed, reverse strand downwards), are not the "
+           "rotated bases of the input in transcription order"},
+    19: {1: "location_bridges_origin(allow_reversing=True) answered True but left its argument changed (the exon list is "
+            "swapped back 'so it will be reported as it was')",
+         2: "location_bridges_origin(allow_reversing=True) changed its argument into something that is not its valid reversed exon order",
+         3: "location_bridges_origin(allow_reversing=True): wrong answer (True iff the exon order is invalid for the strand and, "
+            "on the reverse strand, the reversed order is invalid too)"},
     8: {1: "extend raised on a well-formed input", 2: "result parts empty or outside the record", 3: "result parts overlap",
         6: "bases of the result are not exactly the bases within the distance"},
 }
@@ -574,10 +658,17 @@ CLAUSES = {
 
 # recorded finding classes: (function, class number computed in Gallina by fn 208) -> (class name, clause it violates)
 # (the class extend_lower_lost, F09b, was repaired: nothing is suppressed for it, its witnesses are in CORPUS)
-FINDING_CLASSES = {(8, 1): ("extend_near_full", 3)}
-CLASS_FN = {8: 208}
-WITNESSES = {  # class name -> (fn, args) replayed on the implementation every run
-    "extend_near_full": (8, ([(3, 4, NONE), (0, 3, NONE)], 2, 4, True)),
+# offset_location (Gallina fn 207, bit mask): 1 offset_merge_drops_part (clause 4, the length changes), 2
+# offset_reverse_wrap_order (clause 7, bases right, transcription order wrong), 3 both (the lost part is seen first)
+FINDING_CLASSES = {(8, 1): ("extend_near_full", 3),
+                   (7, 1): ("offset_merge_drops_part", 4), (7, 3): ("offset_merge_drops_part", 4),
+                   (7, 2): ("offset_reverse_wrap_order", 7)}
+CLASS_FN = {8: 208, 7: 207}
+WITNESSES = {  # class name -> [(fn, args)] replayed on the implementation every run
+    "extend_near_full": [(8, ([(3, 4, NONE), (0, 3, NONE)], 2, 4, True)),
+                         (8, ([(30, 100, 1), (0, 5, 1)], 31, 100, True))],
+    "offset_merge_drops_part": [(7, ([(15, 20, 1), (0, 5, 1), (5, 9, 1)], 5, 20))],
+    "offset_reverse_wrap_order": [(7, ([(13, 18, -1)], 5, 20))],
 }
 
 # regression corpus, run first on every run: (fn, args, record length).  Witnesses of the repaired findings
@@ -621,7 +712,7 @@ def known_classes():
     return {f["class"]: f for f in common.load_known_findings("C04") if f.get("status") == "known"}
 
 
-def suppress_known(chk, cases, impl_outs, model_outs, failing):
+def suppress_known(chk, cases, impl_outs, model_outs, failing, replay_witnesses=True):
     """ a specification failure is attributed to a recorded finding only if the input lies in the
         finding's class (computed in Gallina), the class is listed with status known, the violated
         clause is the recorded one and the implementation still behaves exactly like the faithful model """
@@ -637,15 +728,16 @@ def suppress_known(chk, cases, impl_outs, model_outs, failing):
             continue
         kept.append((size, i, verdict))
     # the stored witnesses, replayed on the implementation
-    for name, (fn, args) in WITNESSES.items():
-        if name not in known:
+    for name, witnesses in WITNESSES.items():
+        if name not in known or not replay_witnesses:
             continue
-        out = impl(fn, args)
-        verdict = common.run_driver([[PROP, fn + SPEC_OFFSET] + encode(fn, args) + out])[0]
-        if verdict[0] == 0:
+        verdicts = common.run_driver([[PROP, fn + SPEC_OFFSET] + encode(fn, args) + impl(fn, args) for fn, args in witnesses])
+        if verdicts[0][0] == 0:
             chk.known(known[name].get("what_fails", name))
         else:
             chk.count("known_finding_no_longer_reproduces_" + name)
+        for verdict in verdicts[1:]:
+            chk.count(f"known_finding_further_witness_{'reproduces' if verdict[0] == 0 else 'no_longer_reproduces'}_{name}")
     return kept
 
 
@@ -681,9 +773,11 @@ def order_search(chk, cases, impl_outs):
                        "implementation [a < b, b < a]": flat[-4:], "cases_violating": len(failing)})
 
 
-def spec_search(chk, cases, impl_outs, model_outs):
+def spec_search(chk, cases, impl_outs, model_outs, tag="", describe_fn=None, replay_witnesses=True):
     """ failing-input search: the decidable set-of-bases specification (Gallina, function id + 100) is
-        evaluated on the implementation's output of EVERY case of the six specified operations """
+        evaluated on the implementation's output of EVERY case of the specified operations (tag "composed_": the
+        cases of the composition family, whose argument in one slot is the live object returned by another function) """
+    describe_fn = describe_fn or (lambda i: describe(cases[i]))
     idx = [i for i, c in enumerate(cases) if c[1] in SPEC_FNS]
     spec_cases = [spec_case(cases[i], impl_outs[i]) for i in idx]
     verdicts = common.run_driver(spec_cases)
@@ -691,18 +785,18 @@ def spec_search(chk, cases, impl_outs, model_outs):
     for i, verdict in zip(idx, verdicts):
         fn = cases[i][1]
         kind = {1: "spec_ok", 0: "spec_violated", 2: "spec_precondition_unmet"}.get(verdict[0], "spec_undecoded")
-        chk.count(kind)
+        chk.count(tag + kind)
         if verdict[0] == 0:
-            chk.count(f"spec_violated_{FN_NAMES[fn]}_clause{verdict[1]}")
+            chk.count(f"{tag}spec_violated_{FN_NAMES[fn]}_clause{verdict[1]}")
             failing.append((len(cases[i]), i, verdict))
         elif verdict[0] not in (1, 2):
             chk.violation("broken-correspondence", f"specification of {FN_NAMES[fn]} could not decode a case",
                           {"theorem_or_correspondence": "spec decoding", "flat": spec_cases[idx.index(i)]})
             return
-    chk.extra["spec_evaluated"] = len(idx)
-    chk.extra["spec_violations"] = len(failing)
-    failing = suppress_known(chk, cases, impl_outs, model_outs, failing)
-    chk.extra["spec_violations_in_recorded_finding_classes"] = chk.extra["spec_violations"] - len(failing)
+    chk.extra[tag + "spec_evaluated"] = len(idx)
+    chk.extra[tag + "spec_violations"] = len(failing)
+    failing = suppress_known(chk, cases, impl_outs, model_outs, failing, replay_witnesses)
+    chk.extra[tag + "spec_violations_in_recorded_finding_classes"] = chk.extra[tag + "spec_violations"] - len(failing)
     failing.sort()
     reported = set()
     for _size, i, verdict in failing:
@@ -712,12 +806,134 @@ def spec_search(chk, cases, impl_outs, model_outs):
             continue
         reported.add(key)
         clause = CLAUSES.get(fn, {}).get(verdict[1], str(verdict[1]))
-        chk.violation("counterexample", f"{FN_NAMES[fn]}: {clause}",
+        chk.violation("counterexample", f"{FN_NAMES[fn]}: {clause}" + (" (argument: a location returned by another function)" if tag else ""),
                       {"theorem_or_correspondence": f"C04 specification of {FN_NAMES[fn]} (clause {verdict[1]})",
-                       "function": fn, "flat": cases[i], "input": describe(cases[i]),
+                       "function": fn, "flat": cases[i], "input": describe_fn(i),
                        "implementation": impl_outs[i], "model": model_outs[i],
                        "spec_verdict_on_implementation_output": verdict,
                        "cases_violating_this_clause": sum(1 for _s, j, v in failing if (cases[j][1], v[1]) == key)})
+
+
+# ---------------------------------------------------------------------------------------------- composition
+PRODUCERS = (6, 7, 8, 9, 10, 11, 16, 17, 19)    # 19: its argument afterwards (reordered in place by design)
+CONSUMERS = [1, 1, 2, 2, 3, 3, 4, 5, 6, 6, 7, 7, 8, 8, 9, 10, 11, 12, 15, 16, 17, 18, 19]
+MAX_RECORD = 2000   # Record helpers as consumers: records are built (and kept) per length
+
+
+def gen_consumer(rng, parts, n):
+    """ a call of a location-consuming function with the location `parts` in one argument slot.
+        Returns (fn, args, k): the k-th argument location of the call is the slot """
+    m = max([n] + [e for _s, e, _st in parts])   # a shift without a wrap point may leave [0, n)
+    fn = rng.choice(CONSUMERS)
+    if fn in (8, 17, 18) and m > MAX_RECORD:
+        fn = rng.choice([1, 2, 3, 6, 7])
+    if fn == 12 and any(a[0] < b[1] and b[0] < a[1] for i, a in enumerate(parts) for b in parts[i + 1:]):
+        fn = 1   # Feature() refuses a location with overlapping exons (its constructor is not part of the model)
+    other = gen_loc(rng, m)
+    k = rng.randrange(2)
+    pair = (parts, other) if k == 0 else (other, parts)
+    if fn in (1, 2):
+        return fn, pair, k
+    if fn == 3:
+        return fn, pair + (rng.choice([None, m, m]),), k
+    if fn == 18:
+        return fn, pair + (m, rng.random() < 0.75), k
+    if fn == 12:
+        return fn, pair + (rng.choice([0, 0, 1, 2]),), k
+    if fn in (4, 5, 9, 10, 19):
+        return fn, (parts,), 0
+    if fn in (6, 16, 17):
+        locs = [parts] if rng.random() < 0.4 else list(pair)
+        k = locs.index(parts) if len(locs) == 1 else k
+        if fn == 6:
+            return fn, (locs, rng.choice([None, m, m, m])), k
+        if fn == 16:
+            return fn, (locs,), k
+        return fn, (locs, m, rng.random() < 0.75, rng.random() < 0.15), k
+    if fn == 7:
+        w = rng.choice([None, m, m, m])
+        return fn, (parts, rng.randint(-2 * m, 2 * m) if w else rng.randint(-3, m), w), 0
+    if fn == 8:
+        return fn, (parts, rng.choice([0, 1, 2, rng.randint(0, m + 1)]), m, rng.random() < 0.7), 0
+    if fn == 11:
+        return fn, (parts, rng.choice([1, 2, 3, 1, 2, 3, 0, 4]), rng.random() < 0.5), 0
+    assert fn == 15
+    return fn, (("join", [(0, s, 0, e, st) for s, e, st in parts]),), 0
+
+
+def compose(rng, fn, args, n, out, obj, count=1):
+    """ the live object returned by the producing call (fn, args) is passed to `count` consuming calls; each is
+        also made with an equal, freshly built location in its place.  Returns the composed cases. """
+    parts = [(int(p.start), int(p.end), strand_from_py(p.strand)) for p in obj.parts]
+    comps = []
+    for _ in range(count):
+        fn2, args2, k = gen_consumer(rng, parts, n)
+        if fn2 == 15 and getattr(obj, "operator", "join") != "join":
+            args2 = ((obj.operator, args2[0][1]),)
+        before = enc_pyloc(obj)
+        live_out = call_objs(fn2, args2, live={k: obj})[0]
+        fresh_out = impl(fn2, args2)
+        after = enc_pyloc(obj)
+        flat2 = [PROP, fn2] + encode(fn2, args2)
+        ARGS_OF[tuple(flat2)] = args2
+        comps.append({"flat": flat2, "fn": fn2, "args": args2, "slot": k, "live": live_out, "fresh": fresh_out,
+                      "changed": None if fn2 == 19 or before == after else (before, after),
+                      "producer": {"function": FN_NAMES[fn], "fn": fn, "args": args, "record_length": n, "implementation": out,
+                                   "returned_object": describe_object(obj)}})
+        if fn2 == 19 or before != after:
+            break
+    return comps
+
+
+def describe_composed(comp):
+    return {"producing_call": comp["producer"],
+            "consuming_call": {"function": FN_NAMES[comp["fn"]], "fn": comp["fn"], "arguments": comp["args"],
+                               "argument_that_is_the_returned_object": comp["slot"]},
+            "implementation_on_the_returned_object": comp["live"],
+            "implementation_on_an_equal_freshly_built_location": comp["fresh"]}
+
+
+def compose_search(chk, comps):
+    """ composition family: the OBJECT returned by every location-producing function is passed on to the
+        location-consuming functions.  Decided (a) without the model: the result must be the one obtained for an
+        equal, freshly built location (a returned location must be a location like any other: class, parts,
+        methods) and the consuming call must leave the object as it is; (b) by the specification of the consuming
+        function on the implementation's output; (c) against the model of the consuming function applied to the
+        model's value of the produced location (= the composition of the two model functions, since the produced
+        location already agreed with the model). """
+    chk.extra["composed_calls"] = len(comps)
+    chk.evaluations += 2 * len(comps)
+    for comp in comps:
+        chk.count(f"composed_producer_{FN_NAMES[comp['producer']['fn']]}")
+        chk.count(f"composed_consumer_{FN_NAMES[comp['fn']]}")
+    differs = [c for c in comps if c["live"] != c["fresh"]]
+    chk.extra["composed_calls_differing_from_a_fresh_equal_location"] = len(differs)
+    if differs:
+        comp = min(differs, key=lambda c: (len(c["flat"]) + len(str(c["producer"]["args"]))))
+        chk.violation("counterexample", f"{FN_NAMES[comp['fn']]} on the location returned by {comp['producer']['function']}: the "
+                      "result differs from the result for an equal, freshly built location (the returned object does not "
+                      "behave as the location it equals)",
+                      dict(describe_composed(comp), theorem_or_correspondence="composition: a returned location behaves like every "
+                           "other location with the same parts (decided on the implementation alone)", function=comp["fn"],
+                           flat=comp["flat"], composition={"producer": [comp["producer"]["fn"], comp["producer"]["args"]],
+                                                           "consumer": [comp["fn"], comp["args"], comp["slot"]]},
+                           cases_differing=len(differs)))
+    changed = [c for c in comps if c["changed"]]
+    if changed:
+        comp = min(changed, key=lambda c: len(c["flat"]))
+        chk.violation("counterexample", f"{FN_NAMES[comp['fn']]} modified the location (returned by {comp['producer']['function']}) passed to it",
+                      dict(describe_composed(comp), theorem_or_correspondence="C04_history_call_frame: a call leaves its arguments as they are",
+                           function=comp["fn"], flat=comp["flat"], before_and_after=comp["changed"]))
+    flats = [c["flat"] for c in comps]
+    outs = [c["live"] for c in comps]
+    by_flat = {}
+    for comp in comps:
+        by_flat.setdefault(tuple(comp["flat"]), comp)
+    model_outs = common.correspondence(chk, flats, outs, describe=lambda flat: describe_composed(by_flat[tuple(flat)]),
+                                       label="composition (consuming function on a returned location), model vs implementation")
+    spec_search(chk, flats, outs, model_outs, tag="composed_", describe_fn=lambda i: describe_composed(comps[i]),
+                replay_witnesses=False)
+    return flats, model_outs
 
 
 ORDER_INDEP_FN = 116
@@ -1010,6 +1226,7 @@ def run_one_history(rng, fn, args, n, via_text, script=None):
             if script is None and object_ids(obj) & touched:   # shares a part with an object already changed: the
                 continue                                        # model keeps objects apart, so leave it alone
             touched |= object_ids(obj)
+            before = enc_pyloc(obj)
             try:
                 out = call_with_timeout(lambda: mutate(kind, x, obj, n), 20)   # pylint: disable=cell-var-from-loop
             except Exception as exc:  # pylint: disable=broad-except
@@ -1017,7 +1234,8 @@ def run_one_history(rng, fn, args, n, via_text, script=None):
             touched |= object_ids(obj)
             ops.append([1, kind, addr, x])
             outs.append(out)
-            steps.append({"op": len(ops) - 1, "mutate_object": addr, "how": MUT_NAMES[kind], "x": x, "object_afterwards": out})
+            steps.append({"op": len(ops) - 1, "mutate_object": addr, "how": MUT_NAMES[kind], "x": x, "object_before": before,
+                          "object_afterwards": out})
     return ops, outs, steps, direct
 
 
@@ -1115,6 +1333,21 @@ def history_search(chk, rng, count):
                                   "history: an in-place mutator differs from the model",
                                   dict(base, theorem_or_correspondence="model vs implementation (mutators)",
                                        failing_op=k, implementation=out, model=mout)))
+    # location_bridges_origin(allow_reversing=True) applied to objects of earlier calls: specification 119 on the
+    # implementation's answer and on the object before / afterwards
+    asked = [(h, step) for h in hist for step in h[6] if step.get("how") == MUT_NAMES[4] and step["object_afterwards"][:1] != [-1]]
+    verdicts = common.run_driver([[PROP, 119] + step["object_before"] + step["object_afterwards"] for _h, step in asked])
+    chk.extra["history_bridges_reversing_judged_by_specification_119"] = len(asked)
+    for (h, step), verdict in zip(asked, verdicts):
+        if verdict[0] == 0:
+            fn, args, n, via_text, ops = h[:5]
+            flat = [PROP, HISTORY_FN, len(ops)] + [x for op in ops for x in op]
+            found.append((0, len(flat), "counterexample", CLAUSES[19].get(verdict[1], str(verdict[1])),
+                          {"function": fn, "function_name": FN_NAMES[fn], "flat": flat, "record_length": n, "call_sequence": h[6],
+                           "history": {"fn": fn, "args": args, "record_length": n, "arguments_built_from_text": via_text, "ops": ops},
+                           "theorem_or_correspondence": "C04_bridges_reversing_spec / specification 119 on an object of an earlier call",
+                           "failing_op": step["op"], "object_before": step["object_before"], "implementation": step["object_afterwards"],
+                           "spec_verdict_on_implementation_output": verdict}))
     found.sort(key=lambda f: (f[0], f[1]))
     reported = set()
     for _rank, _size, kind, what, replay in found:
@@ -1127,19 +1360,47 @@ def history_search(chk, rng, count):
     return flats, models
 
 
+def report_invariants(chk):
+    """ every location returned during the run (by the cases, the composed calls, the permuted orders, the
+        histories) had its dynamic type and class invariants checked in call_objs """
+    chk.extra["returned_locations_violating_the_class_invariants"] = len(INVARIANT_FAILS)
+    if INVARIANT_FAILS:
+        fn, args, why, obj = min(INVARIANT_FAILS, key=lambda f: len(str(f[1])))
+        chk.violation("counterexample", f"{FN_NAMES[fn]}: {why}",
+                      {"theorem_or_correspondence": "class invariants of returned locations (secmet FeatureLocation / CompoundLocation "
+                                                    "with secmet FeatureLocation parts, two or more for a CompoundLocation, integer positions, "
+                                                    "the Location mixin methods); decided on the implementation alone",
+                       "function": fn, "flat": [PROP, fn] + encode(fn, args), "input": {"function": FN_NAMES[fn], "arguments": args},
+                       "returned_object": obj, "cases_violating": len(INVARIANT_FAILS)})
+
+
+def _phase(chk, name):
+    import time
+    now = time.time()
+    chk.extra.setdefault("phase_seconds", {})[name] = round(now - getattr(chk, "_phase_t", chk.t0), 1)
+    chk._phase_t = now
+
+
 def run(chk):
     if not chk.build_and_audit():
         return chk.finish(RULE)
+    _phase(chk, "build_and_audit")
     total = 30000 if chk.tier == "quick" else 600000
     fixed = CORPUS + small_ring_connect_cases(5 if chk.tier == "quick" else 8)
     chk.extra["exhaustive_small_ring_connect_lists"] = len(fixed) - len(CORPUS)
     total += len(fixed)
-    cases, impl_outs = [], []
+    cases, impl_outs, comps = [], [], []
+    compose_rate = 0.45
+    del INVARIANT_FAILS[:]
     for k in range(total):
         fn, args, n = fixed[k] if k < len(fixed) else gen_case(chk.rng)
         flat = [PROP, fn] + encode(fn, args)
         ARGS_OF[tuple(flat)] = args
-        out = impl(fn, args)
+        out, objs = call_objs(fn, args)
+        succeeded = (out[0] != -1 if fn in (9, 10, 19) else out[0] == 0) and all(0 <= int(p.start) < int(p.end) for o in objs for p in o.parts)
+        if fn in PRODUCERS and succeeded and k >= len(fixed) and chk.rng.random() < compose_rate:
+            produced = objs[0] if fn == 19 else objs[-1]
+            comps.extend(compose(chk.rng, fn, args, n, out, produced, chk.rng.choice([1, 1, 2])))
         cases.append(flat)
         impl_outs.append(out)
         chk.count(FN_NAMES[fn])
@@ -1147,16 +1408,28 @@ def run(chk):
             chk.count("error_kind_" + common.ERR_NAME.get(out[1], str(out[1])))
         chk.note_case(flat, nontrivial(fn, args),
                       {"function": FN_NAMES[fn], "args": args, "record_length": n, "implementation": out})
+    _phase(chk, "implementation_calls_and_composition")
     model_outs = common.correspondence(chk, cases, impl_outs, spec_fn_offset=SPEC_OFFSET, describe=describe)
+    _phase(chk, "model")
     spec_search(chk, cases, impl_outs, model_outs)
+    _phase(chk, "specification")
+    composed = compose_search(chk, comps)
+    _phase(chk, "composition_model_and_specification")
     order_search(chk, cases, impl_outs)
     order_independence(chk, chk.rng, cases, impl_outs)
+    _phase(chk, "order")
     hist = history_search(chk, chk.rng, 2500 if chk.tier == "quick" else 40000)
+    _phase(chk, "histories")
     if hist:   # a sample of the histories goes through the vm_compute cross-check too
         cases = cases + hist[0][:400]
         model_outs = model_outs + hist[1][:400]
     text_round_trip(chk, chk.rng, 3000 if chk.tier == "quick" else 60000)
+    report_invariants(chk)
+    cases = cases + composed[0][:2000]
+    model_outs = model_outs + composed[1][:2000]
+    _phase(chk, "text_and_invariants")
     chk.crosscheck_vm(cases, model_outs)
+    _phase(chk, "vm_compute_crosscheck")
     return chk.finish(RULE)
 
 
@@ -1188,9 +1461,38 @@ def replay(chk, path):
                 out = impl(fn, (locs[0], locs[1]) + tuple(rest[1:]))
             print(entry["order"], locs, "->", out, "recorded:", entry["result"])
         return 0
+    if "composition" in doc:
+        pfn, pargs = doc["composition"]["producer"]
+        cfn, cargs, slot = doc["composition"]["consumer"]
+        pargs, cargs = tuple(json_args(pargs)), tuple(json_args(cargs))
+        if cfn == 15:
+            cargs = ((cargs[0][0], list(cargs[0][1])),)
+        out, objs = call_objs(pfn, pargs)
+        produced = objs[0] if pfn == 19 else objs[-1]
+        print("producing call:", FN_NAMES[pfn], pargs, "->", out, describe_object(produced))
+        print("  class invariants:", class_invariant(produced) or "ok")
+        live = call_objs(cfn, cargs, live={slot: produced})[0]
+        fresh = impl(cfn, cargs)
+        flat = [PROP, cfn] + encode(cfn, cargs)
+        print("consuming call:", FN_NAMES[cfn], cargs, "(argument", slot, "is the returned object)")
+        print("  on the returned object:              ", live)
+        print("  on an equal, freshly built location: ", fresh, "" if live == fresh else "  <-- differs")
+        print("  model:                               ", common.run_driver([flat])[0])
+        if cfn in SPEC_FNS:
+            ARGS_OF[tuple(flat)] = cargs
+            print("  specification verdict on the first:  ", common.run_driver([spec_case(flat, live)])[0])
+        return 0
     flat = doc["flat"]
     model = common.run_driver([flat])[0]
     print("model:", model, "recorded implementation:", doc.get("implementation"))
+    key = "arguments (locations as lists of (start, end, strand); strand 2 = None)"
+    if isinstance(doc.get("input"), dict) and key in doc["input"] and flat[1] in FN_NAMES and flat[1] not in (14, 15):
+        args = tuple(json_args(doc["input"][key]))
+        out = impl(flat[1], args)
+        print("implementation now:", out, "" if out == model else "  <-- differs from the model")
+        if flat[1] in SPEC_FNS:
+            ARGS_OF[tuple(flat)] = args
+            print("specification verdict on it:", common.run_driver([spec_case(flat, out)])[0])
     return 0
 
 
